@@ -3,8 +3,11 @@ rejection localisation, known-findings handling and evidence files.  See DESIGN.
 import fcntl, json, os, re, shutil, subprocess, sys, tempfile, time
 
 VERIF = '/verif'
-REPO = '/repo'
-BUILD = os.path.join(VERIF, 'build')
+# the registered checks use the defaults; the overrides exist so that seeded changes can be tried on a CLONE of /repo
+# (tools/mutant_alt.sh) while long checks run against /repo itself
+REPO = os.environ.get('VERIF_REPO', '/repo')
+BUILD = os.environ.get('VERIF_BUILD', os.path.join(VERIF, 'build'))
+OUT = os.environ.get('VERIF_OUT', VERIF)   # where replays/ and evidence/ are written
 SPEC = os.path.join(VERIF, 'spec')
 TLA_JAR = '/opt/veriftools/tla/tla2tools.jar'
 CM_JAR = '/opt/veriftools/tla/CommunityModules-deps.jar'
@@ -60,7 +63,7 @@ def build(variant='plain', drivers=None):
         if r.returncode != 0:
             raise Infra('build of /repo failed (variant %s):\n%s' % (variant, r.stdout[-4000:]))
         targets = ['%s/%s/bin/%s' % (BUILD, variant, d) for d in (drivers or [])]
-        r = subprocess.run(['make', '-s', '-j16', '-C', os.path.join(VERIF, 'harness'), 'V=' + variant] + targets,
+        r = subprocess.run(['make', '-s', '-j16', '-C', os.path.join(VERIF, 'harness'), 'V=' + variant, 'R=' + REPO, 'B=' + BUILD] + targets,
                            stdout=subprocess.PIPE, stderr=subprocess.STDOUT, text=True)
         if r.returncode != 0:
             raise Infra('build of harness failed (variant %s):\n%s' % (variant, r.stdout[-4000:]))
@@ -226,7 +229,7 @@ def known_findings_text():
 
 
 def save_replay(pid, name, content_lines):
-    d = os.path.join(VERIF, 'replays', pid)
+    d = os.path.join(OUT, 'replays', pid)
     os.makedirs(d, exist_ok=True)
     p = os.path.join(d, name)
     with open(p, 'w') as f:
@@ -236,10 +239,10 @@ def save_replay(pid, name, content_lines):
 
 # ----------------------------------------------------------------------------- evidence
 def write_evidence(pid, tier, level, coverage, wall, violations, assumptions):
-    os.makedirs(os.path.join(VERIF, 'evidence'), exist_ok=True)
+    os.makedirs(os.path.join(OUT, 'evidence'), exist_ok=True)
     ev = {'property_id': pid, 'tier': tier, 'seed': seed(), 'level': level, 'coverage': coverage,
           'assumptions': assumptions, 'wall_s': round(wall, 2), 'violations': violations}
-    p = os.path.join(VERIF, 'evidence', pid + '.json')
+    p = os.path.join(OUT, 'evidence', pid + '.json')
     with open(p, 'w') as f:
         json.dump(ev, f, indent=1)
     return p
